@@ -4,7 +4,7 @@
 export GOFLAGS=-mod=mod GOPROXY=off GOSUMDB=off GOTOOLCHAIN=local
 WT=$1; P=$2
 run() { # dir
-  (cd $1 && sed -i "s#=> /repo#=> $WT#" go.mod && VERIF_TIER=quick VERIF_SCALE=3 VERIF_REPLAY_DIR=$1/replays VERIF_KNOWN=/verif/known_findings.json go test -tags verif -count=1 -run "^Test$P\$" . 2>&1 | grep -E "^(ok|FAIL)" | head -1 | cut -c1-4)
+  (cd $1 && sed -i "s#=> /repo#=> $WT#" go.mod && VERIF_TIER=quick VERIF_SCALE=3 VERIF_REPLAY_DIR=$1/replays VERIF_KNOWN=/verif/known_findings.json go test -tags verif -count=1 -run "^Test$P\$" . 2>&1 | grep -E "^(ok|FAIL)" | head -1 | sed 's/.*build failed.*/BUILD-FAILED/' | cut -c1-12 | awk '{print $1}')
 }
 rm -rf /tmp/hs-old /tmp/hs-new; mkdir -p /tmp/hs-old
 git -C /verif archive HEAD harness | tar -x -C /tmp/hs-old
